@@ -777,6 +777,64 @@ theorem lookup_canonEmis (S : Stats κ) (W : Name → Nat → SimOut κ) (progs 
 
 end
 
+/-! ### cost summary -/
+
+theorem nodup_keys_filter {α : Type} (t : Table α) (P : Key × α → Bool) (nd : (keys t).Nodup) :
+    (keys (t.filter P)).Nodup :=
+  List.Nodup.sublist (List.Sublist.map _ List.filter_sublist) nd
+
+theorem costSummary_perm (nb : List Name) (econ : Name → Rat × Rat) (K : Rat)
+    {emis emis' ts ts' : Table (List Val)} (he : emis'.Perm emis) (ht : ts'.Perm ts) (nd : (keys ts).Nodup) :
+    (costSummary nb econ K emis' ts').Perm (costSummary nb econ K emis ts) := by
+  unfold costSummary
+  have hf := List.Perm.filter (fun y : Key × List Val => nb.contains y.1.1) ht
+  have hl : ∀ k, List.lookup k (ts'.filter fun y => nb.contains y.1.1) = List.lookup k (ts.filter fun y => nb.contains y.1.1) :=
+    fun k => lookup_perm hf (nodup_keys_of_perm hf.symm (nodup_keys_filter _ _ nd)) k
+  simp only [hl]
+  exact List.Perm.filterMap _ (List.Perm.filter _ he)
+
+section
+variable {κ : Type}
+
+/-- the Cost Summary row of (p, s): that pair's own total mitigation and total cost and the two
+formulas -/
+def costRowOf (S : Stats κ) (W : Name → Nat → SimOut κ) (econ : Name → Rat × Rat) (K : Rat)
+    (p : Name) (s : Nat) : Key × CostRow :=
+  let mit := cell (S.emis (W p s).emis ++ estPart S (W p s)) mitCol
+  let cost := cell (S.ts (W p s).ts) costCol
+  (key p s, { mitigation := mit, totalCost := cost, ratio := costRatio mit cost (econ p).1,
+              value := costValue mit K (econ p).2 })
+
+theorem costSummary_canon (S : Stats κ) (W : Name → Nat → SimOut κ) (progs : List Name) (sims : List Nat)
+    (hp : progs.Nodup) (hs : sims.Nodup) (nb : List Name) (econ : Name → Rat × Rat) (K : Rat) :
+    costSummary nb econ K (canonEmis S W progs sims) (canonTs S W progs sims)
+      = sims.flatMap fun s => (progs.filter fun p => nb.contains p).map fun p => costRowOf S W econ K p s := by
+  unfold costSummary
+  have ndf : (keys ((canonTs S W progs sims).filter fun y => nb.contains y.1.1)).Nodup :=
+    nodup_keys_filter _ _ (by rw [keys_canonTs]; exact nodup_canonKeys progs sims hp hs)
+  conv => lhs; rw [canonEmis, List.filter_flatMap, List.filterMap_flatMap]
+  apply List.flatMap_congr
+  intro s hsm
+  rw [List.filter_map, List.filterMap_map]
+  have : (fun p : Name => nb.contains p) = ((fun x : Key × List Val => nb.contains x.1.1) ∘ fun p => emisRowOf S W p s) := by
+    funext p; simp [emisRowOf, key]
+  rw [← this]
+  rw [← List.filterMap_eq_map]
+  apply List.filterMap_congr
+  intro p hpm
+  have hpm' := List.mem_filter.mp hpm
+  have hmem : (key p s, S.ts (W p s).ts) ∈ (canonTs S W progs sims).filter fun y => nb.contains y.1.1 := by
+    rw [List.mem_filter]
+    refine ⟨?_, by simpa [key] using hpm'.2⟩
+    simp only [canonTs, List.mem_flatMap, List.mem_map]
+    exact ⟨s, hsm, p, hpm'.1, rfl⟩
+  have hl := lookup_of_mem_nodup ndf hmem
+  simp only [Function.comp, emisRowOf, costRowOf]
+  rw [hl]
+  rfl
+
+end
+
 /-! ### batching arithmetic -/
 
 theorem allSims_replicate (q b : Nat) (t : List Nat) :
